@@ -99,6 +99,8 @@ PairScenarios == {
   S("badseq-new",    L_two,  P2(SeqC(<<"i1", "i2", "zz">>), NewTask), {}),
   S("prune-setdone", L_done, P2(Prune, SetState("i2", "done", "")), {}),
   S("prune-newchild", L_emptyepic, P2(Prune, NewTaskIn("i1")), {}),
+  \* a task created closed is pruned right after its creator let go of the lock
+  S("prune-newdone", L_done, P2(Prune, TC("new_task", "", "done", ABSENT, "")), {}),
   S("compact-new",   L_done, P2(Compact, NewTask), {}),
   Legacy(S("compact-set", L_two, P2(Compact, SetState("i1", "done", "")), {})),
   Legacy(S("compact-new", L_done, P2(Compact, NewTask), {})),
@@ -117,7 +119,7 @@ PairScenarios == {
 
 \* subsets of the menu, for the properties whose concurrent half they exercise
 SeqScenarios   == {x \in PairScenarios : x.name \in {"seq-seqrev", "chain-seq", "seq-rm"}}
-PruneScenarios == {x \in PairScenarios : x.name \in {"prune-reopen", "prune-prune", "prune-setdone", "prune-newchild"}}
+PruneScenarios == {x \in PairScenarios : x.name \in {"prune-reopen", "prune-prune", "prune-setdone", "prune-newchild", "prune-newdone"}}
 StateScenarios == {x \in PairScenarios : x.name \in {"claimid-setdone", "claimid-claimid", "setdoing-setdone", "set-set", "claimid-claim", "set-claim"}}
 FailScenarios  == {x \in PairScenarios : x.name \in {"badset-new", "badseq-new", "claimid-claim", "set-set"}}
 
